@@ -51,6 +51,17 @@ add("C19", "simnet", "model-based property testing (generated control/data histo
     "ACK frames on each connection equal the acknowledged requests processed in that round, logger copies follow processing order. "
     "Exploration level.", SIM_NOTE, "DESIGN.md 4 C19")
 
+add("C02", "simnet", "stateful property testing of the real Client against the real manager (probe-based delivered-set oracle) + exhaustive enumeration of the 3-type abstract state space",
+    "Real pyrtma.Client on the simulated network; after every API call a probe publishes one message per type and the delivered set read "
+    "from the client's connection must equal the reported subscribed set, exclude paused types, be unchanged by refused requests and be "
+    "restored after scoped contexts. The sub-domain (28 reachable abstract states over 3 types + ALL) x 9 operations x argument lists of "
+    "<=3 entries is enumerated completely in both tiers; longer histories over 6 types are sampled. Exploration level.",
+    SIM_NOTE + " The client's module-level socket/select/time names are substituted the same way.", "DESIGN.md 4 C02")
+add("C06", "simnet", "model-based property testing + exhaustive enumeration of connect pairs + generated id-churn + wire capture of the public entry points",
+    "Three-valued identity oracle on generated connect/disconnect histories; all 17424 ordered pairs of consecutive connects enumerated; "
+    ">=110 dynamic connects with churn and exhaustion of all 100 dynamic ids; Client.connect / client_context keyword arguments compared "
+    "with the CONNECT/CONNECT_V2 frames on the wire and with CLIENT_INFO at a monitor. Exploration level.", SIM_NOTE, "DESIGN.md 4 C06")
+
 PLANNED = {}
 
 
